@@ -160,7 +160,9 @@ def do_chunk(args):
                 "cls": description_class(sw, n * len(pure_translations(w["basis"], w["D"])))}
         if crys is not None:
             try:
-                info["ow"] = worlds.observe(crys, 1.0, Dhint=w["D"], postol=4 * jitter if jitter > 1e-8 else 0.0)
+                # noise in supercell coordinates is amplified by the supercell matrix in the reduced cell's coordinates
+                amp = float(np.max(np.sum(np.abs(S), axis=1))) + 1.0
+                info["ow"] = worlds.observe(crys, 1.0, Dhint=w["D"], postol=2 * amp * jitter if jitter > 1e-8 else 0.0)
                 run_.update({"rh": bool(np.linalg.det(crys.lattice) > 0), "nG": len(crys.G)})
             except worlds.ProjectionError as ex:
                 info["projection"] = str(ex)
